@@ -8,10 +8,17 @@ current source to be this one. Where each line went in the model:
 * `plan.budgetLoop`, `plan.afterRosters` → `planLoop` (guard, `none => []`, task appended, `removeSegments`)
 * `plan.startLoop`, `plan.scoreIf`, `plan.bestRule` → `pickBest`; `plan.rosterLoop`, `plan.rosterGuard` → `buildRoster`
 * `removeSegments` → `removeSegments`; `calcBudget.guards`, `scoreSegments` → `calcBudgetF`, `scoreSegmentsF`
+* `calcBudget.body` (the whole function, local names numbered in order of first appearance: v1 `totalSize`,
+  v2 `firstTierSize`, v3 `o`, v4 `budgetNumSegments`, v5 `tierSize`, v6 `maxSegmentsPerTier`, v7 `tierGrowth`,
+  v8 `segmentsInTier`) → `calcBudgetF` / `calcBudgetLoopF` statement by statement, and with exact arithmetic
+  `calcBudgetRat` (`v8 < float64(v6)` ⇔ `total < per·tier`; `int(math.Ceil(v8))` = `(total+tier-1)/tier`;
+  `int64(float64(v5) * v7)` = `tier·num/den`) and `calcBudgetNat` (`den = 1`)
+* `plan.scoreIf` is the one entry that depends on the variant (`Options.skipNoop`, regenerated as
+  `BlugeGen.C19.skipNoop`): the pinned `len(roster) > 0` or the guard of work/C19/fix-noop-singleton-rosters.diff
 * `package.*` → determinism on the Go side: no clock, random source, map, goroutine or select in the package -/
 namespace Bluge.C19
 
-def expectedFacts : List (String × String) := [
+def expectedFacts (skipNoop : Bool) : List (String × String) := [
   ("plan.tooFew", "len(_) <= 1 => return nil, nil"),
   ("plan.sort", "_.Sort(byLiveSizeDescending(_))"),
   ("plan.emptyRule", "_.LiveSize() <= 0 => _ = append(_, _)"),
@@ -21,12 +28,14 @@ def expectedFacts : List (String × String) := [
   ("plan.startLoop", "_ := 0; _ < len(_); _++"),
   ("plan.rosterLoop", "_ := _; _ < len(_) && len(_) < _.SegmentsPerMergeTask; _++"),
   ("plan.rosterGuard", "_ + _.LiveSize() < _.MaxSegmentSize => _ = append(_, _); _ += _.LiveSize()"),
-  ("plan.scoreIf", "len(_) > 0 => _ := scoreSegments(_, _)"),
+  ("plan.scoreIf", if skipNoop then "len(_) > 1 || (len(_) == 1 && _[0].LiveSize() < _[0].FullSize()) => _ := scoreSegments(_, _)"
+                   else "len(_) > 0 => _ := scoreSegments(_, _)"),
   ("plan.bestRule", "len(_) == 0 || _ < _ => _ = _; _ = _"),
   ("eligible", "_.LiveSize() < _.MaxSegmentSize / 2 => _ = append(_, _); _ += _.LiveSize()"),
   ("removeSegments", "range _ { range _ { if _ == _ { continue L } }"),
   ("sort.less", "if a[i].LiveSize() != a[j].LiveSize() { return a[i].LiveSize() > a[j].LiveSize() }; return a[i].ID() < a[j].ID()"),
   ("calcBudget.guards", "if _ < 1; if _ < 1; if _ < 1; for _ > 0; if _ < float64(_)"),
+  ("calcBudget.body", "{ v5 := v2; if v5 < 1 { v5 = 1 }; v6 := v3.MaxSegmentsPerTier; if v6 < 1 { v6 = 1 }; v7 := v3.TierGrowth; if v7 < 1 { v7 = 1 }; for v1 > 0 { v8 := float64(v1) / float64(v5); if v8 < float64(v6) { v4 += int(math.Ceil(v8)); break }; v4 += v6; v1 -= int64(v6) * v5; v5 = int64(float64(v5) * v7) }; return v4 }"),
   ("scoreSegments", "_ <= 0 || _ <= 0 || _ <= 0 => return 0 lits 0,0,0,0,0,0.05"),
   ("package.imports", "errors,fmt,math,sort,strings"),
   ("package.nondeterminism", "maps=0 go=0 select=0")
